@@ -1094,7 +1094,10 @@ where
                 }
             }
 
-            // Check if the pool is paused and wait until it's resumed.
+            // Check if the pool is paused and wait until it's resumed. Look at the pool that is
+            // registered now: ours can be the object of a user that a RELOAD removed (and a later
+            // one added again), which nobody pauses any more.
+            pool = self.get_pool().await?;
             pool.wait_paused().await;
 
             // Refresh pool information, something might have changed.
